@@ -28,41 +28,39 @@ Proof. exact not_executed_unchanged. Qed.
 Print Assumptions C17_not_executed_unchanged.
 
 (* (3) exact charge: an executed transaction (successful or VM-failed) reports 0 < gasUsed <= limit,
-   credits the fee pool exactly gasUsed*price — for every oracle answer, refund counter included —
-   and, when no account self-destructs, debits the sender exactly gasUsed*price + value moved,
-   credits the recipient the value moved (0 when the VM failed), leaves every other account to
-   the code's own transfers, and raises the sender's nonce by exactly one *)
+   credits the fee pool exactly gasUsed*price — for every oracle answer, refund counter and
+   self-destructs included — debits the sender exactly gasUsed*price + value moved, credits the
+   recipient the value moved (0 when the VM failed), leaves every other account to the code's
+   own transfers, and raises the sender's nonce by exactly one (the sender, an externally owned
+   account, is not among the accounts that executed SELFDESTRUCT) *)
 Theorem C17_exact_charge : forall s e t o f used s',
   well_formed e t o ->
   deliver_olvm s e t o = (Executed f used, s') ->
   f = o_failed o /\ 0 < used <= t_gas t /\
   pool s' = pool s + used * t_price t /\
-  (selfdestructs o = false -> forall a, balance s' a =
+  (forall a, balance s' a =
      balance s a
      + (if decide (a = t_from t) then - (used * t_price t + moved t f) else 0)
      + (if decide (a = recipient e t) then moved t f else 0)
      + (if f then 0 else delta_int (o_int o) a)) /\
-  (selfdestructs o = false -> recipient e t <> t_from t ->
+  (survives o (t_from t) -> recipient e t <> t_from t ->
    nonce_of s' (t_from t) = nonce_of s (t_from t) + 1).
 Proof. exact exact_charge. Qed.
 Print Assumptions C17_exact_charge.
 
-(* (4) conservation, partial: without SELFDESTRUCT, total OLT over any set of accounts containing
-   everything the transaction touches, plus the fee pool, changes by exactly the net of the
-   code's own transfers (0 for transfers between accounts): buyGas - refund = gasUsed*price = the
-   separate AddToPool credit *)
-Theorem C17_conservation_partial : forall s e t o f used s' l,
-  well_formed e t o -> selfdestructs o = false ->
+(* (4) conservation, FULL (since /repo 8b9b1c9: removing an EVM account writes its balance
+   record): total OLT over any set of accounts containing everything the transaction touches,
+   plus the fee pool, changes by exactly the net of the code's own transfers (0 for transfers
+   between accounts, SELFDESTRUCT included): buyGas - refund = gasUsed*price = the separate
+   AddToPool credit *)
+Theorem C17_conservation : forall s e t o f used s' l,
+  well_formed e t o ->
   deliver_olvm s e t o = (Executed f used, s') ->
   NoDup l -> t_from t ∈ l -> recipient e t ∈ l -> (forall p, p ∈ o_int o -> p.1 ∈ l) ->
   total_over s' l = total_over s l + (if f then 0 else sum_int (o_int o)).
 Proof. exact conservation. Qed.
-Print Assumptions C17_conservation_partial.
+Print Assumptions C17_conservation.
 
-(* ... and refuted in full: a contract holding 5000 self-destructs towards the caller.  The EVM
-   pays the caller 5011 (balance + call value), Finalise removes only the keeper record, the
-   balance record keeps 5000: total OLT grows by 5000.  Known finding C17.selfdestruct_funded
-   (reproduced on the real code by the directed scenario of the harness). *)
 Definition w_state : state :=
   {| bal := list_to_map [(0%N, 1000000000000000000); (1%N, 5000)] ;
      seqs := list_to_map [(0%N, 3); (1%N, 1)] ; pool := 0 |}.
@@ -74,79 +72,69 @@ Definition w_call (nonce : Z) : otx :=
 Definition w_suicide : oracle :=
   {| o_left := 73998 ; o_refund := 0 ; o_failed := false ;
      o_int := [(1%N, -5011); (0%N, 5011)] ; o_dead := [1%N] |}.
-
-Theorem C17_conservation_refuted : exists s e t o f used s' l,
-  selfdestruct_funded s o = true /\ well_formed e t o /\ sum_int (o_int o) = 0 /\
-  deliver_olvm s e t o = (Executed f used, s') /\
-  NoDup l /\ t_from t ∈ l /\ recipient e t ∈ l /\ (forall p, p ∈ o_int o -> p.1 ∈ l) /\
-  total_over s' l <> total_over s l.
-Proof.
-  exists w_state, w_env, (w_call 3), w_suicide, false, 26002,
-    (deliver_olvm w_state w_env (w_call 3) w_suicide).2, [0%N; 1%N].
-  split; [vm_compute; reflexivity|].
-  split; [vm_compute; intuition discriminate|].
-  split; [reflexivity|]. split; [vm_compute; reflexivity|].
-  split; [repeat constructor; set_solver|].
-  split; [set_solver|]. split; [vm_compute; set_solver|].
-  split; [intros p Hp; vm_compute in Hp |- *; set_solver|].
-  vm_compute. discriminate.
-Qed.
-
-(* (5) the nonce rule.  Full statement "an executed transaction carries exactly the account's
-   nonce" is false of the faithful model: preCheck only rejects state > msg.  Partial under the
-   complement of the trigger [nonce_gap]; witness: nonce = account nonce + 2 executes. *)
-Theorem C17_nonce_exact_partial : forall s e t o f used s',
-  well_formed e t o -> nonce_gap s t = false ->
-  deliver_olvm s e t o = (Executed f used, s') -> t_nonce t = nonce_of s (t_from t).
-Proof. exact executed_nonce_exact. Qed.
-Print Assumptions C17_nonce_exact_partial.
-
 Definition w_plain : oracle :=
   {| o_left := 79000 ; o_refund := 0 ; o_failed := false ; o_int := [] ; o_dead := [] |}.
 
-Theorem C17_nonce_exact_refuted : exists s e t o f used s',
-  nonce_gap s t = true /\ well_formed e t o /\
-  deliver_olvm s e t o = (Executed f used, s') /\ t_nonce t <> nonce_of s (t_from t).
-Proof.
-  exists w_state, w_env, (w_call 5), w_plain, false, 21000,
-    (deliver_olvm w_state w_env (w_call 5) w_plain).2.
-  split; [vm_compute; reflexivity|]. split; [vm_compute; intuition discriminate|].
-  split; [vm_compute; reflexivity|]. vm_compute. discriminate.
-Qed.
+(* the former witness of the refutation (fixed finding C17.selfdestruct_funded): a contract
+   holding 5000 self-destructs towards the caller of a call carrying 11 — the caller receives
+   5011, the contract's record is written as 0, its keeper record is gone, total unchanged *)
+Example C17_selfdestruct_conserves :
+  let s' := (deliver_olvm w_state w_env (w_call 3) w_suicide).2 in
+  selfdestruct_funded w_state w_suicide = true /\
+  (deliver_olvm w_state w_env (w_call 3) w_suicide).1 = Executed false 26002 /\
+  balance s' 1%N = 0 /\ nonce_of s' 1%N = 0 /\
+  balance s' 0%N = 1000000000000000000 - 26002 * 1000000000 - 11 + 5011 /\
+  total_over s' [0%N; 1%N] = total_over w_state [0%N; 1%N].
+Proof. vm_compute. intuition discriminate. Qed.
 
-(* (6) at most once: after an exact-nonce execution the same transaction (any encoding, any
-   environment, any interpreter answer) is never executed again ... *)
-Theorem C17_no_second_execution_partial : forall s e t o f used s' e2 o2,
-  well_formed e t o -> well_formed e2 t o2 -> nonce_gap s t = false ->
-  selfdestructs o = false -> recipient e t <> t_from t ->
+(* (5) the nonce rule, FULL (since /repo 579eea0: preCheck rejects state < msg as well): an
+   executed transaction carries exactly the account's nonce; any other nonce is never executed *)
+Theorem C17_nonce_exact : forall s e t o f used s',
+  well_formed e t o ->
+  deliver_olvm s e t o = (Executed f used, s') -> t_nonce t = nonce_of s (t_from t).
+Proof. exact executed_nonce_exact. Qed.
+Print Assumptions C17_nonce_exact.
+
+Theorem C17_wrong_nonce_not_executed : forall s e t o,
+  well_formed e t o -> nonce_of s (t_from t) <> t_nonce t ->
+  forall f u, (deliver_olvm s e t o).1 <> Executed f u.
+Proof. exact stale_nonce_not_executed. Qed.
+Print Assumptions C17_wrong_nonce_not_executed.
+
+(* (6) at most once, FULL: after its execution the account nonce is above the transaction's
+   nonce, and the same transaction — any encoding, any environment, any interpreter answer —
+   is not executed again (and by C17_wrong_nonce_not_executed not in any later state whose
+   account nonce differs from it) *)
+Theorem C17_no_second_execution : forall s e t o f used s' e2 o2,
+  well_formed e t o -> well_formed e2 t o2 ->
+  survives o (t_from t) -> recipient e t <> t_from t ->
   deliver_olvm s e t o = (Executed f used, s') ->
+  t_nonce t < nonce_of s' (t_from t) /\
   forall f2 u2, (deliver_olvm s' e2 t o2).1 <> Executed f2 u2.
 Proof. exact no_second_execution. Qed.
-Print Assumptions C17_no_second_execution_partial.
+Print Assumptions C17_no_second_execution.
 
-(* ... while with a nonce gap it is executed, and charged, again (and a third time when the gap
-   is 2).  Known finding C17.nonce_gap (C05 tracks the replay aspect). *)
-Theorem C17_no_second_execution_refuted : exists s e t o f used s' f2 u2 s'',
-  nonce_gap s t = true /\ well_formed e t o /\
-  deliver_olvm s e t o = (Executed f used, s') /\
-  deliver_olvm s' e t o = (Executed f2 u2, s'') /\
-  balance s'' (t_from t) = balance s (t_from t) - 2 * (used * t_price t + t_value t).
-Proof.
-  exists w_state, w_env, (w_call 5), w_plain, false, 21000,
-    (deliver_olvm w_state w_env (w_call 5) w_plain).2, false, 21000,
-    (deliver_olvm (deliver_olvm w_state w_env (w_call 5) w_plain).2 w_env (w_call 5) w_plain).2.
-  split; [vm_compute; reflexivity|]. split; [vm_compute; intuition discriminate|].
-  split; [vm_compute; reflexivity|]. split; [vm_compute; reflexivity|]. vm_compute. reflexivity.
-Qed.
+(* the former witness (fixed finding C17.nonce_gap): nonce = account nonce + 2 is not executed *)
+Example C17_nonce_gap_rejected :
+  nonce_gap w_state (w_call 5) = true /\
+  deliver_olvm w_state w_env (w_call 5) w_plain = (NotExecuted, w_state).
+Proof. vm_compute. auto. Qed.
 
-(* (7) a transaction CheckTx accepts on a ledger passes every consensus pre-check on the same
-   ledger (block gas and the sender-is-EOA test aside): mempool acceptance implies execution *)
+(* (7) a transaction CheckTx accepts on a ledger AND that carries exactly the account's nonce
+   passes every consensus pre-check on the same ledger (block gas and the sender-is-EOA test
+   aside).  Without the exact-nonce hypothesis the statement is false: validateEthTx still
+   accepts a nonce ahead of the account's (mempool-side leniency), preCheck rejects it. *)
 Theorem C17_validated_executes : forall s e t o min_fee,
-  well_formed e t o -> validate s min_fee t = true ->
+  well_formed e t o -> validate s min_fee t = true -> nonce_gap s t = false ->
   e_dup e = false -> e_sender_code e = false -> gas_u64 t <= e_block_gas e ->
   exists f u, (deliver_olvm s e t o).1 = Executed f u.
 Proof. exact validated_executes. Qed.
 Print Assumptions C17_validated_executes.
+
+Example C17_validated_gap_not_executed :
+  validate w_state 1000000000 (w_call 5) = true /\ nonce_gap w_state (w_call 5) = true /\
+  (deliver_olvm w_state w_env (w_call 5) w_plain).1 = NotExecuted.
+Proof. vm_compute. auto. Qed.
 
 (* (8) native SEND on the same ledger: exact charge, failure is a no-op, conservation *)
 Theorem C17_send_exact : forall s t used s',
@@ -192,6 +180,7 @@ Proof. vm_compute. auto. Qed.
 
 Example C17_nonvacuous_rejected :
   (deliver_olvm w_state w_env (w_call 2) w_plain).1 = NotExecuted /\                       (* nonce too low *)
+  (deliver_olvm w_state w_env (w_call 4) w_plain).1 = NotExecuted /\                       (* nonce too high *)
   (deliver_olvm w_state w_env
      {| t_from := 0%N ; t_to := None ; t_value := 0 ; t_gas := 52999 ; t_price := 1 ; t_nonce := 3 ;
         t_nz := 0 ; t_z := 0 ; t_chain_ok := true ; t_memo_ok := true |} w_plain).1 = NotExecuted /\   (* intrinsic, after buyGas *)
